@@ -1,6 +1,6 @@
-(* C01 — Transferred bytes are exactly the file's bytes. Theorems only; proofs in Proofs/TransferP.v *)
+(* C01 — Transferred bytes are exactly the file's bytes. Theorems only; proofs in Proofs/TransferP.v, Proofs/TransferE2EP.v *)
 From Coq Require Import List NArith Bool Arith Permutation Strings.Byte.
-From Sftp Require Import Base.GoSem Xfer.Transfer Proofs.TransferP.
+From Sftp Require Import Base.GoSem Xfer.Transfer Proofs.TransferP Proofs.TransferE2EP.
 Import ListNotations.
 
 (* every slicer cuts a transfer of n bytes into contiguous chunks of 1..p bytes that add up to n: this is where the
@@ -56,9 +56,65 @@ Theorem C01_maxTx_needed_refuted :
 Proof. exact maxTx_needed_refuted. Qed.
 Print Assumptions C01_maxTx_needed_refuted.
 
-(* PARTIAL: the end-to-end statements for the sequential multi-chunk loops, concurrent ReadAt/WriteTo and the write paths
-   (result = file bytes / splice for all sizes) are not yet proved as theorems; they are covered by the correspondence
-   run of the same executable definitions (families c01, c13) *)
+(* ===== end to end, for all sizes, offsets, packet sizes, option combinations and reply orders ===== *)
+
+(* File.ReadAt, every path (one packet; sequential chunks; concurrent map/reduce with the workers reporting in ANY order):
+   the bytes are exactly file[off, off+len) cut at the end of the file, the count is their number, the error is nil iff
+   the buffer was filled and io.EOF otherwise. Side condition exactly as in the property: on the concurrent path the
+   client's packet size must not exceed the server's payload limit. *)
+Theorem C01_readAt_exact : forall o s off len arrival,
+  no_rfail s -> 1 <= maxTx s -> 1 <= maxPacket o ->
+  (concReads o = true -> maxPacket o < len -> maxPacket o <= maxTx s) ->
+  Permutation arrival (chunks len off len (maxPacket o)) ->
+  readAt o s off len arrival =
+    (Nat.min len (length (file s) - off),
+     (if len <=? length (file s) - off then None else Some xeof),
+     firstn len (skipn off (file s))).
+Proof. exact readAt_exact. Qed.
+Print Assumptions C01_readAt_exact.
+
+(* File.WriteTo, every path: the writer receives exactly the file from the offset to its end; nil; offset at the end *)
+Theorem C01_writeTo_exact : forall o s regular off,
+  no_rfail s -> 1 <= maxTx s -> 1 <= maxPacket o ->
+  (concReads o = true -> regular = true -> maxPacket o < length (file s) -> maxPacket o <= maxTx s) ->
+  writeTo o s regular off = (skipn off (file s), None, Nat.max off (length (file s))).
+Proof. exact writeTo_exact. Qed.
+Print Assumptions C01_writeTo_exact.
+
+(* File.WriteAt, every path (one packet; sequential chunks; concurrent chunks): afterwards the served file is exactly
+   the old file with the buffer spliced in at the offset (zero-filled gap beyond the old end), count = len(buf), nil *)
+Theorem C01_writeAt_exact : forall o s off b dispatched,
+  no_wfail s -> 1 <= maxPacket o ->
+  length (chunks (length b) off (length b) (maxPacket o)) <= dispatched ->
+  writeAt o s off b dispatched = (with_file s (splice (file s) off b), length b, None).
+Proof. exact writeAt_exact. Qed.
+Print Assumptions C01_writeAt_exact.
+
+(* two adjacent chunk writes are one write of the concatenation: the algebra all write paths rest on *)
+Theorem C01_splice_app : forall f off d1 d2, splice (splice f off d1) (off + length d1) d2 = splice f off (d1 ++ d2).
+Proof. exact splice_app. Qed.
+Print Assumptions C01_splice_app.
+
+(* File.ReadFrom, sequential and ReadFromWithConcurrency (all chunks dispatched): the source's bytes are spliced in at the
+   File offset, count = bytes consumed = len(src), nil, and the File offset moves past them *)
+Theorem C01_readFromSeq_exact : forall fuel s p src off read,
+  no_wfail s -> 1 <= p -> length src < fuel ->
+  readFromSeq fuel readfrom_fixed s p src off read =
+    (with_file s (splice (file s) off src), read + length src, None, off + length src).
+Proof. exact readFromSeq_exact. Qed.
+Print Assumptions C01_readFromSeq_exact.
+
+Theorem C01_readFromConc_exact : forall s p src off dispatched,
+  no_wfail s -> 1 <= p -> length (chunks (length src) off (length src) p) <= dispatched ->
+  readFromConc s p src off dispatched = (with_file s (splice (file s) off src), length src, None, off + length src).
+Proof. exact readFromConc_exact. Qed.
+Print Assumptions C01_readFromConc_exact.
+
+(* MODELLED, NOT PROVED ABOUT THE CODE: `srv` (READ = up to min(len,maxTx) bytes or EOF status; WRITE = splice) stands for
+   both servers with and without the allocator, and the model functions for client.go's loops; both are tied to the code
+   on every run by the correspondence families c01/c13 (same executable definitions, extracted), which sweep sizes around
+   k*maxPacket, all option combinations and server kinds. File.Read / File.Write are ReadAt / WriteAt at File.offset
+   followed by offset += n (not separately modelled; exercised by c01). Offsets are nat: no 2^63 wrap-around. *)
 Example C01_nonvacuous :
   let s := mkSrv (pattern 0 10) 100 (fun _ => None) (fun _ => None) in
   let o := mkOpts 3 2 true false false in
